@@ -561,7 +561,17 @@ func c11r6(p *Prog, r *Reporter) {
 			if !isCallTo(site, nq) {
 				continue
 			}
-			batch := site.Common().Args[2]
+			// the batch list is the argument of type *batchArchetypes (its position shifts when the constructor becomes a method)
+			var batch ssa.Value
+			for _, a := range site.Common().Args {
+				if typeName(a.Type()) == "batchArchetypes" {
+					batch = a
+				}
+			}
+			if batch == nil {
+				r.Und(p.FuncName(fn), "batch query built from a filled batch list", p.Pos(site.Pos()), "the batch-query constructor receives no *batchArchetypes argument")
+				continue
+			}
 			okc := false
 			for _, s2 := range callsIn(fn) {
 				if s2 == site {
